@@ -426,6 +426,10 @@ def run(rep, facts, tier):
     # ------------------------------------------------------------ R10.5 both sides decide on the same QoS
     rule_10_5(rep, fx)
 
+    # ------------------------------------------------------------ R10.6 crossed roles (shared lint, rdv/swaplint.py)
+    from rdv import swaplint
+    swaplint.run_rule(rep, facts['default'], 'R10.6', ['dds::qos', 'rtps::reader::Reader::update_writer_proxy', 'rtps::writer::Writer::update_reader_proxy', 'rtps::dp_event_loop'])
+
 
 RXO_PIDS = ('PID_DURABILITY', 'PID_DEADLINE', 'PID_LATENCY_BUDGET', 'PID_LIVELINESS', 'PID_RELIABILITY', 'PID_OWNERSHIP', 'PID_DESTINATION_ORDER', 'PID_PRESENTATION')
 
